@@ -357,6 +357,21 @@ def c_refusal(ctx, case):
     differentiate() wrapper, the mapper class used directly, the default and an explicit None),
     and whatever was differentiated EARLIER in the process under a more permissive setting."""
     e, order = case
+    # ... and whatever FAILED earlier: calls with arguments no function accepts (math.log(None),
+    # a string, a tuple), refused functions, an unknown function -- each caught by the caller
+    pm = p.Variable("math")
+    for bad in (p.Product((p.Call(p.Lookup(pm, "log"), (None,)), X)),
+                p.Sum((p.Call(p.Lookup(pm, "sin"), ("abc",)), X)),
+                p.Call(p.Lookup(pm, "exp"), ((X, 1),)),
+                p.Call(p.Lookup(pm, "fabs"), (X,)), p.Call(p.Variable("nosuchfunction"), (X,)),
+                p.Call(p.Lookup(pm, "log"), ())):
+        for setting in ("none", "continuous", "discontinuous"):
+            try:
+                differentiate(bad, "x", allowed_nonsmoothness=setting)
+            except RecursionError:
+                raise
+            except Exception:  # noqa: BLE001
+                ctx.count("failed_differentiations_before_the_judged_one")
     entry = [
         ("differentiate", lambda s: differentiate(e, "x", allowed_nonsmoothness=s), None),
         ("mapper", lambda s: DifferentiationMapper(X, allowed_nonsmoothness=s)(e), None),
@@ -735,6 +750,7 @@ def workload(ctx):
                 ctx.count("handler:map_math_functions_by_name", v)
     ctx.floor("wide_nodes", 50)
     ctx.floor("repeated_derivative_values", 400)
+    ctx.floor("failed_differentiations_before_the_judged_one", 300)
     ctx.floor("reentrant_derivative_values", 100)
     ctx.floor("kind_derivative_values", 500)
     ctx.floor("stream:rows", 300)
